@@ -4,6 +4,10 @@ import random
 from . import engdrv as D
 
 ALLBITS = ["ENCRYPT", "DECRYPT", "SIGN", "VERIFY", "MAC_GENERATE", "WRAP_KEY", "DERIVE_KEY", "EXPORT"]
+# every other member of the usage mask enumeration: bits that grant none of the operations the server performs
+RAREBITS = ["MAC_VERIFY", "UNWRAP_KEY", "CERTIFICATE_SIGN", "CRL_SIGN", "GENERATE_CRYPTOGRAM", "VALIDATE_CRYPTOGRAM",
+            "TRANSLATE_ENCRYPT", "TRANSLATE_DECRYPT", "TRANSLATE_WRAP", "TRANSLATE_UNWRAP", "AUTHENTICATE", "UNRESTRICTED",
+            "FPE_ENCRYPT", "FPE_DECRYPT"]
 VERSIONS = [(1, 0), (1, 1), (1, 2), (1, 3), (1, 4), (2, 0)]
 BADVERSIONS = [(0, 9), (1, 5), (2, 1), (3, 0)]
 STORED = ["SymmetricKey", "PublicKey", "PrivateKey", "Certificate", "SecretData", "OpaqueData"]
@@ -74,7 +78,10 @@ class Gen(object):
 
     def mask(self):
         r = self.r.random()
-        if r < 0.15:
+        if r < 0.1:
+            # only bits that grant none of the server's operations (among them the KMIP 2.0 "Unrestricted" flag)
+            return sorted(self.r.sample(RAREBITS, self.r.randrange(1, 4)) + (["EXPORT"] if self.r.random() < 0.5 else []))
+        if r < 0.2:
             return []
         if r < 0.5:
             return [self.r.choice(ALLBITS)]
